@@ -5,3 +5,4 @@ from contracts import pulse  # noqa
 from contracts import peaks  # noqa
 from contracts import selection  # noqa
 from contracts import context  # noqa
+from contracts import mailbox  # noqa
